@@ -1,4 +1,5 @@
 import JaqalProofs.Lemmas.BuilderRefs
+import JaqalProofs.Lemmas.BuilderNames
 /-!
 # C14 — no program is accepted with a reference that cannot be honoured (builder part)
 
@@ -16,14 +17,15 @@ Model: `JaqalModel/Model/Builder.lean`; declarative specification: `ValOK`, `Arg
 * `C14_known_when_known_*`: which positions are NOT checked when the circuit is built because their value is a
   let-constant (they are checked when `fill_in_let` rebuilds the circuit — another component), and which are.
 * `C14_precedence_*`: gate tables — injected gates win over imported ones, a later import wins over an earlier one.
-* `C14_sound_full` (a definition, NOT proved here) adds the name clauses of the property: constant / register / alias
-  names pairwise distinct, macro names distinct from each other and from the gates known before, every gate
-  statement's definition a native gate, an earlier macro, or an anonymous definition when no gate set is in force.
-  What is missing: an invariant relating `Acc.ctx` / `St.gctx` to the lists collected in `Acc` (a `List.Perm`
-  argument from `addVar`, and `GExt` from `BuilderMemo.lean` for the gate table). For hand-made S-expressions the last
-  clause is in fact FALSE for the code as it is: a `usepulses` child that comes after a gate statement replaces the
-  definition the earlier statement is bound to (`C07_memo_stale_after_usepulses` in `Props/C07.lean` is such an input;
-  the parser cannot produce it, header statements come first).
+* `C14_sound_parser`: for parser-shaped input (`ParserShaped`, every header statement before every body statement —
+  what the grammar enforces) the accepted circuit moreover satisfies `NamesValid`: constant / register / alias names are
+  pairwise distinct; macro names are distinct from each other and from the native gates; every gate statement's
+  definition (in the body and in macro bodies) is a native gate of the circuit, a macro of the circuit, or — only when
+  no gate set is in force — an anonymous definition `p0…p{n-1}`. (`C14_names_distinct` holds for every input.)
+* `C14_sound_full` (a definition) is the same for ALL S-expressions. It is FALSE for the code as it is, for hand-made
+  S-expressions only: a `usepulses` child that comes after a gate statement replaces the definition the earlier
+  statement is bound to (`C07_memo_stale_after_usepulses` in `Props/C07.lean` is such an input; the parser cannot
+  produce it).
 -/
 namespace Jaqal.Builder
 open Jaqal
@@ -88,18 +90,6 @@ example : (parseBuild {} (.list [.str "circuit", .list [.str "register", .str "r
 
 def defOfMacro (m : Macro) : GateDef := { name := m.name, tag := .macro, params := m.params, hasUnitary := false }
 
-mutual
-def gateDefsOf : Stmt → List GateDef
-  | .gate _ gd _ => [gd]
-  | .block _ _ _ body => gateDefsOfList body
-  | .loop _ b => gateDefsOf b
-def gateDefsOfList : List Stmt → List GateDef
-  | [] => []
-  | s :: ss => gateDefsOf s ++ gateDefsOfList ss
-end
-
-def nameOf (v : Val) : String := v.name?.getD ""
-
 structure NamesValid (cfg : Config) (c : Circuit) : Prop where
   /-- constant, register and alias names are pairwise distinct -/
   names : ((c.constants ++ c.registers).map nameOf).Nodup
@@ -111,10 +101,106 @@ structure NamesValid (cfg : Config) (c : Circuit) : Prop where
     gd ∈ c.natives ∨ (∃ m ∈ c.macros, gd = defOfMacro m) ∨
       (cfg.anonymousAllowed = true ∧ gd = anonDef gd.name gd.params.length)
 
-/-- The full statement of the builder part of C14. NOT proved (see the module comment). -/
+/-- The full statement of the builder part of C14, for all S-expressions. False for hand-made input with a `usepulses`
+child after a gate statement (see the module comment); proved for parser-shaped input below. -/
 def C14_sound_full : Prop :=
   ∀ (cfg : Config) (sx : Sx) (c : Circuit), parseBuild cfg sx = .ok c →
     RefsValid c ∧ (c.registers.filter isFundamental).length ≤ 1 ∧ NamesValid cfg c
+
+/-- Constant, register and alias names of an accepted circuit are pairwise distinct (any input). -/
+theorem C14_names_distinct (cfg : Config) (e : BSx) (c : Circuit) (h : build cfg e = .ok c) :
+    ((c.constants ++ c.registers).map nameOf).Nodup := by
+  unfold build buildWith at h
+  obtain ⟨inject, _, h1⟩ := bind_ok h
+  unfold buildCore at h1
+  split at h1
+  · obtain ⟨acc, hloop, h2⟩ := bind_ok h1
+    simp only [pure, Except.pure] at h2
+    cases h2
+    have := circuitLoop_names _ _ acc ⟨by simp, by simp⟩ hloop
+    exact this.perm.nodup_iff.2 this.nodup
+  · obtain ⟨_, _, h2⟩ := bind_ok h1
+    simp [throw_eq] at h2
+
+theorem anonDef_params_length (n : String) (k : Nat) : (anonDef n k).params.length = k := by
+  simp [anonDef]
+
+/-- **C14 (builder part), with the name clauses, for everything the parser can produce.** -/
+theorem C14_sound_parser (cfg : Config) (sx : Sx) (c : Circuit) (hp : ParserShaped (BSx.ofSx sx))
+    (h : parseBuild cfg sx = .ok c) :
+    RefsValid c ∧ (c.registers.filter isFundamental).length ≤ 1 ∧ NamesValid cfg c := by
+  obtain ⟨hrefs, hone⟩ := C14_sound cfg sx c h
+  refine ⟨hrefs, hone, ?_⟩
+  unfold parseBuild at h
+  obtain ⟨c', hb, h2⟩ := bind_ok h
+  have hcc : c' = c := by
+    unfold tooManyRegisters at h2
+    split at h2
+    · simp [throw_eq] at h2
+    · simp only [pure, Except.pure] at h2; cases h2; rfl
+  subst hcc
+  have hnames := C14_names_distinct cfg _ _ hb
+  obtain ⟨hdr, body, he, hh, hbd⟩ := hp
+  rw [he] at hb
+  unfold build buildWith at hb
+  obtain ⟨inject, hinj, h1⟩ := bind_ok hb
+  unfold buildCore at h1
+  simp only [] at h1
+  obtain ⟨acc, hloop, h3⟩ := bind_ok h1
+  simp only [pure, Except.pure] at h3
+  cases h3
+  rw [circuitLoop_append] at hloop
+  obtain ⟨accH, hH, hB⟩ := bind_ok hloop
+  have hnat : NatOK (inject.getD []) := by
+    unfold Config.inject at hinj
+    cases hn : cfg.natives with
+    | none => simp [hn, pure, Except.pure] at hinj; subst hinj; exact ⟨fun p hp => (by cases hp), by simp⟩
+    | some gs =>
+      simp only [hn] at hinj
+      obtain ⟨d, hd, h4⟩ := bind_ok hinj
+      simp only [pure, Except.pure] at h4
+      cases h4
+      exact normNatives_natOK hd
+  have hHI : HInv accH := by
+    refine circuitLoop_header hdr _ accH ?_ hh hH
+    exact ⟨rfl, rfl, rfl, rfl, hnat⟩
+  have hBI : BInv cfg acc := circuitLoop_body body accH acc hHI.toBInv hbd hB
+  refine ⟨hnames, ?_, ?_⟩
+  · have : (acc.toCircuit.natives.map (·.name)) = acc.natives.map (·.1) := by
+      simp only [Acc.toCircuit, List.map_map]
+      apply List.map_congr_left
+      intro p hp
+      exact hBI.nat.keys p hp
+    show (acc.macros.map (·.name) ++ acc.toCircuit.natives.map (·.name)).Nodup
+    rw [this]; exact hBI.mnames
+  · intro gd hgd
+    have hk : GKnown acc.st.gctx gd := by
+      rcases List.mem_append.1 hgd with hgd | hgd
+      · simp only [Acc.toCircuit, gateDefsOf] at hgd
+        obtain ⟨s, hs, hg⟩ := mem_gateDefsOfList.1 hgd
+        exact hBI.stmts s hs gd hg
+      · simp only [Acc.toCircuit, List.mem_flatten, List.mem_map] at hgd
+        obtain ⟨l, ⟨m, hm, rfl⟩, hg⟩ := hgd
+        exact hBI.macros m hm gd hg
+    obtain ⟨e, hl, hd⟩ := hk
+    rcases hBI.shape _ e hl with ⟨g, rfl, hm⟩ | ⟨m, hm, rfl⟩ | ⟨ha, k, rfl⟩
+    · left
+      simp only [GEntry.toDef] at hd
+      subst hd
+      exact List.mem_map.2 ⟨_, hm, rfl⟩
+    · right; left
+      exact ⟨m, hm, hd.symm⟩
+    · right; right
+      refine ⟨ha, ?_⟩
+      simp only [GEntry.toDef] at hd
+      rw [← hd]
+      simp [anonDef]
+
+/-- non-vacuity: the accepted example program above is parser-shaped -/
+example : ParserShaped (BSx.ofSx progOK) :=
+  ⟨[.list [.str "register", .str "r", .int 4], .list [.str "map", .str "a", .str "r", .int 3, .int 0, .int (-1)]],
+   [.list [.str "macro", .str "m", .str "x", .list [.str "sequential_block", .list [.str "gate", .str "g", .str "x"]]],
+    .list [.str "gate", .str "m", .list [.str "array_item", .str "a", .int 2]]], rfl, by decide, by decide⟩
 
 /-! ## Checked when known -/
 
@@ -135,8 +221,8 @@ theorem C14_checked_literal_index (nm r : String) (k i : Int)
 written (so `let n 3; register r[n]; g r[4]` is rejected although an override `n = 5` would make it valid). -/
 theorem C14_known_when_known_size (nm r n : String) (k i : Int) :
     (mkQubit nm (.regF r (.const n (.int k))) (.int i)).toOption.isSome = (decide (0 ≤ i) && decide (i < k)) := by
-  simp only [mkQubit, qubitCheck, bind, Except.bind, pure, Except.pure, Resolve.resolveSize, pyIntOfSize, pyLt_int,
-    pyLe_int]
+  simp only [mkQubit, qubitCheck, bind, Except.bind, pure, Except.pure, regSize, Resolve.resolveSize, pyIntOfSize,
+    pyLt_int, pyLe_int]
   by_cases h1 : i < 0 <;> by_cases h2 : i < k <;>
     simp [h1, h2, isAV, throw_eq, Except.toOption] <;> omega
 
@@ -152,7 +238,8 @@ theorem C14_known_when_known_slice_source (nm r n : String) (k a b s : Int) (hs 
       = .ok (.regS nm (.regF r (.const n (.int k))) (.int a) (.int b) (.int s)) := by
   have hz : pyEq0 (.int s) = false := by simp [pyEq0, Val.toNum?, Num.veq, hs]
   have hlt : ¬ a < 0 := by omega
-  simp [mkSlice, sliceCheck, bind, Except.bind, pure, Except.pure, isAV, hz, pyLt_int, hlt, Resolve.resolveSize]
+  simp [mkSlice, sliceCheck, bind, Except.bind, pure, Except.pure, isAV, isIntLit, hz, pyLt_int, hlt, regSize,
+    Resolve.resolveSize]
 
 /-! ## Precedence of gate tables -/
 
@@ -241,6 +328,8 @@ end Jaqal.Builder
 
 #print axioms Jaqal.Builder.C14_sound
 #print axioms Jaqal.Builder.C14_sound_build
+#print axioms Jaqal.Builder.C14_names_distinct
+#print axioms Jaqal.Builder.C14_sound_parser
 #print axioms Jaqal.Builder.C14_known_when_known_index
 #print axioms Jaqal.Builder.C14_checked_literal_index
 #print axioms Jaqal.Builder.C14_known_when_known_size
